@@ -221,7 +221,7 @@ def unexpected_undecided(pid, rep):
 
 def run_value_property(pid, tier, seed, only_archs=None, only_ops=None, only_types=None):
     cfg = PROPS[pid]
-    archs = list(DEFINING_ARCHS) if tier == "quick" else list(X86_ARCHS) + ["emu128"]
+    archs = list(DEFINING_ARCHS) if tier == "quick" else list(X86_ARCHS) + ["emu128", "emu256"]
     if only_archs:
         archs = only_archs
     ops = only_ops or (cfg.get("quick_ops") if tier == "quick" and cfg.get("quick_ops") else cfg["ops"])
